@@ -36,7 +36,7 @@ V0Of(sites, ids) ==
                      ELSE Call(FALSE, 0, Sorted2(sites[j].t)) ]
 
 ReadOpts(sites, ids) ==
-    { [smp |-> 1, cov |-> [ n \in 1..(hi - lo + 1) |-> lo + n - 1 ],
+    { [smp |-> 1, tpl |-> 0, cov |-> [ n \in 1..(hi - lo + 1) |-> lo + n - 1 ],
        al |-> [ n \in 1..(hi - lo + 1) |-> sites[lo + n - 1].t[h] ]] :
         lo \in 1..N, hi \in 1..N, h \in {1, 2} }
 ReadOK(rd, v0) == /\ Len(rd.cov) >= 1
@@ -67,15 +67,22 @@ ChooseReads ==
     /\ step = "reads"
     /\ \E rs \in ReadSeqs(GoodReads(world.sites, [ j \in 1..N |-> fs.V0[j].ps ]), NReads) :
        \E keep \in (IF WithKeep THEN SUBSET SetsOf(fs.V0) ELSE { {} }) :
-          world' = [world EXCEPT !.reads = rs, !.keep = keep]
+          /\ world' = [world EXCEPT !.reads = [ r \in DOMAIN rs |-> [rs[r] EXCEPT !.tpl = r] ], !.keep = keep]
+          /\ SetsSeparated(world'.reads, << fs.V0 >>)
     /\ step' = "run"
     /\ UNCHANGED <<fs, have>>
 
+(* all results the design allows, built read by read / site by site *)
+RECURSIVE TagSeqs(_)
+TagSeqs(n) == IF n = 0 THEN { <<>> }
+              ELSE { Append(f, t) : f \in TagSeqs(n - 1), t \in TagChoices(fs.V0, world.reads[n]) }
+RECURSIVE CallSeqs(_)
+CallSeqs(n) == IF n = 0 THEN { <<>> }
+               ELSE { Append(f, c) : f \in CallSeqs(n - 1), c \in PhaseCallChoices(world.reads, fs.B, 1, fs.U, n, 70) }
+
 Haplotag ==
     /\ step = "run" /\ "B" \notin have
-    /\ \E b \in [ DOMAIN world.reads -> [hp : {Absent, 1, 2}, ps : {Absent} \cup 1..MaxSets] ] :
-          /\ \A r \in DOMAIN world.reads : b[r] \in TagChoices(fs.V0, world.reads[r])
-          /\ fs' = [fs EXCEPT !.B = b]
+    /\ \E b \in TagSeqs(Len(world.reads)) : fs' = [fs EXCEPT !.B = b]
     /\ have' = have \cup {"B"}
     /\ UNCHANGED <<world, step>>
 
@@ -87,9 +94,7 @@ Unphase ==
 
 HaplotagPhase ==
     /\ step = "run" /\ {"B", "U"} \subseteq have /\ "W" \notin have
-    /\ \E w \in [ 1..N -> UNION { PhaseCallChoices(world.reads, fs.B, 1, fs.U, j, 70) : j \in 1..N } ] :
-          /\ \A j \in 1..N : w[j] \in PhaseCallChoices(world.reads, fs.B, 1, fs.U, j, 70)
-          /\ fs' = [fs EXCEPT !.W = w]
+    /\ \E w \in CallSeqs(N) : fs' = [fs EXCEPT !.W = w]
     /\ have' = have \cup {"W"}
     /\ step' = "done"
     /\ UNCHANGED world
@@ -99,7 +104,7 @@ Spec == Init /\ [][Next]_vars
 
 -----------------------------------------------------------------------------
 Done == step = "done"
-InvPremise == step \in {"run", "done"} => NoReadSpansTwoSets(world.reads, << fs.V0 >>)
+InvPremise == step \in {"run", "done"} => SetsSeparated(world.reads, << fs.V0 >>)
 InvOrderRestored == Done => OrderRestored(fs.V0, fs.U, fs.W)
 InvSetOfCoveringReads == Done => SetOfCoveringReads(world.reads, fs.B, 1, fs.U, fs.W)
 InvPrephasedUntouched == Done => PrephasedUntouched(fs.U, fs.W)
